@@ -14,6 +14,7 @@ gjk_distance_jolt's d is compared as well (d <= 1e-5 L in the overlap class, d >
 the gap class).
 """
 import json
+import time
 from fractions import Fraction as Fr
 
 import numpy as np
@@ -236,6 +237,12 @@ def libccd_mpr_correspondence(R, cases, tier):
 
 def run(tier, seed, replay=None):
     R = cm.Run(PID, "translation_validation", tier, seed)
+    _t = [time.time()]
+    R.cov["phase_s"] = {}
+
+    def phase(name):
+        R.cov["phase_s"][name] = round(time.time() - _t[0], 1)
+        _t[0] = time.time()
     R.cov["rule"] = (
         "case = ordered pair of colliders (10 kinds, optional Margin). Streams: constructed overlap (a common point p at "
         "certifiable depth k*delta in both, k in {1.5,4,100}) and constructed gap (plane gap k*delta) over all 100 ordered "
@@ -266,9 +273,12 @@ def run(tier, seed, replay=None):
         cases += gen_cases(R.rng, tier)
     for c in cases:
         c["meta"].setdefault("L", nw.scene_scale([c["c1"], c["c2"]]))
+    phase("proofs+generation")
     R.cov["jit_warmup"] = nb.warm(PID, "narrow")
+    phase("jit_warmup")
     results = nb.run_cases(PID, cases, script="narrow", tag="impl")
     R.cov["evaluations"] = len(cases)
+    phase("implementation")
     # ---- certificates
     exprs, idx = [], []
     for i, (c, rr) in enumerate(zip(cases, results)):
@@ -281,6 +291,7 @@ def run(tier, seed, replay=None):
     except RuntimeError as e:
         R.proof_broken.append(f"certificate evaluation failed: {str(e)[:400]}")
         verdicts = []
+    phase("certificates_in_coq")
     klass = {}
     uncertified = 0
     for (i, cls), v in zip(idx, verdicts):
@@ -338,6 +349,9 @@ def run(tier, seed, replay=None):
     for c, rr in list(zip(cases, results))[:3]:
         R.sample(dict(c1=c["c1"], c2=c["c2"], meta=c["meta"],
                       result={r["fn"]: (r.get("ans") if "ans" in r else r.get("d", r.get("exc"))) for r in rr}))
+    phase("judging")
     loop_correspondence(R, cases, tier)
+    phase("jolt_correspondence")
     libccd_mpr_correspondence(R, cases, tier)
+    phase("libccd_mpr_correspondence")
     return R.finish()
